@@ -338,6 +338,7 @@ func init() {
 		for _, fam := range reg.Families {
 			all = append(all, fam.Registers()...)
 		}
+		c20ProcInit() // snapshot + digest of the table while the process is clean (see c20proc.go)
 		if *f.replay != "" {
 			lines, err := readLines(*f.replay)
 			if err != nil {
@@ -777,9 +778,25 @@ func init() {
 			emit("accept-var", c20VarReq(v), "ok")
 		}
 		stats["exported-variable-not-physical(skipped)"] = nonPhys
-		// ---- 10. histories of calls on a build.Context (methods and package-level functions): every register it hands out,
-		// before / between / after functions, with every other call in between (see c20ctx.go)
-		c20CtxGenerate(r, *f.n/4, *f.n >= 20000, emit, stats)
+		// ---- 10 + 11. LAST: the process is used.  11 (c20proc.go): compiles, allocators, caller-mutated accessor results, … with
+		// the exhaustive table / API stream re-evaluated after every step; 10 (c20ctx.go): histories of calls on a build.Context
+		// (methods and package-level functions): every register it hands out, before / between / after functions, with every
+		// other call in between — run as one step of 11 (it compiles too).  Nothing after this point is clean.
+		thorough := *f.n >= 20000
+		ctxSection := func() string {
+			seed := r.intn(1 << 20)
+			c20CtxGenerate(newRng(uint64(seed)), *f.n/4, thorough, emit, stats)
+			t := 0
+			if thorough {
+				t = 1
+			}
+			return fmt.Sprintf("ctxhist:%d:%d:%d", seed, *f.n/4, t)
+		}
+		if thorough {
+			c20ProcGenerate(r, 120, 40, ctxSection, emit, stats)
+		} else {
+			c20ProcGenerate(r, 24, 25, ctxSection, emit, stats)
+		}
 		st := map[string]any{"physical_rows": len(all), "single_conversions": conv, "single_conversions_panicking": convPanics,
 			"random_chain_lengths": chainLens, "requests_by_kind": stats, "exported_register_variables": len(vars)}
 		return writeJSON(*f.stats, st)
@@ -862,6 +879,8 @@ func c20Replay(all []reg.Physical, repo, dir string, ts []string, emit func(kind
 	switch ts[0] {
 	case "ctxh", "accept-ctxfresh":
 		c20CtxReplay(ts, emit)
+	case "tblh", "after", "accept-after":
+		c20ProcReplay(ts, emit, map[string]int{})
 	case "row":
 		if p := physRow(arg(1)); p != nil {
 			emit("row", line, fmt.Sprintf("%s:%d:%d:%d:%d:%d:%d:%s", c20Tok(p.Asm()), uint8(p.Kind()), uint16(p.PhysicalIndex()), p.Mask(), p.Size(), uint8(p.Info()), uint32(p.ID()), c20Bits(p)))
